@@ -494,9 +494,6 @@ func (c *Client) Publish(topic string, options wamp.Dict, args wamp.List, kwargs
 	} else {
 		// Check if the client is asking for a PUBLISHED response.
 		pubAck, _ = options[wamp.OptAcknowledge].(bool)
-		if pubAck {
-			c.expectReply(id)
-		}
 	}
 
 	message := &wamp.Publish{
@@ -543,6 +540,11 @@ func (c *Client) Publish(topic string, options wamp.Dict, args wamp.List, kwargs
 		message.ArgumentsKw = kwargs
 	}
 
+	// Expect a PUBLISHED response only once the PUBLISH is certain to be sent,
+	// so that the early returns above leave no reply slot behind.
+	if pubAck {
+		c.expectReply(id)
+	}
 	c.sess.Send() <- message
 
 	if !pubAck {
